@@ -21,7 +21,7 @@ ASSUMPTIONS = ["nvmon.ref exact reference model", "only removable knots are remo
                "explored domain of DESIGN.md section 3; tolerance 1e-9*scale (1e-8*scale for restored control points)"]
 FLOORS = {'quick': {'removal': 300, 'probe-lib': 3000, 'probe-defn': 3000, 'structure': 300, 'restored': 120},
           'thorough': {'removal': 4000, 'probe-lib': 40000, 'restored': 1500}}
-MANDATORY_TAGS = ['pdim1', 'pdim2', 'pdim3', 'rational', 'partial-removal', 'full-removal', 'after-refine', 'interleaved',
+MANDATORY_TAGS = ['pdim1', 'pdim2', 'pdim3', 'rational', 'multi-dir-one-call', 'partial-removal', 'full-removal', 'after-refine', 'interleaved',
                   'via:method', 'via:operations', 'dir:u', 'dir:v', 'dir:w', 'on-knot', 'in-span']
 TECHNIQUE = ("runtime monitoring: shadow-model oracle (exact reference of the original definition + remembered original control "
              "points) evaluated after every removal step of a seeded insert/refine/remove history")
@@ -42,7 +42,7 @@ def gen(rng, tier, shard, nshards):
         kw.setdefault('maxextra', {1: 6, 2: 4, 3: 2}[pd])
         sd = G.rand_shape(rng, pd, clamped_only=True, **kw)
         yield {'kind': 'history', 'sd': sd, 'seed': rng.randrange(1 << 30),
-               'mode': rng.choice(['single', 'single', 'single', 'two', 'two', 'refine'])}
+               'mode': rng.choice(['single', 'single', 'single', 'two', 'two', 'refine', 'multi-dir', 'multi-dir'])}
 
 
 def stored_knot(o, d, u):
@@ -122,7 +122,42 @@ def check(case, ctx):
             return False
         return verify(desc)
 
-    if mode == 'refine':
+    if mode == 'multi-dir':
+        # knots inserted in two or three directions, then removed again in ONE call naming all of them
+        if pdim == 1:
+            raise Reject()
+        dirs = sorted(rng.sample(range(pdim), rng.randint(2, pdim)))
+        prm, num = [None] * pdim, [0] * pdim
+        for d in dirs:
+            pick = so.pick_insertion(rng, o, d, prefer_knot=0.3)
+            if pick is None:
+                raise Reject()
+            u, s, tag = pick
+            r = rng.randint(1, G.degrees_of(o)[d] - s)
+            with so.quiet():
+                so.call_insert(o, d, u, r, 'operations')
+            prm[d], num[d] = stored_knot(o, d, u), r
+        if not verify('after the insertions'):
+            return
+        ctx.tag('multi-dir-one-call', 'full-removal')
+        pre = G.snapshot(o)
+        with so.quiet():
+            if pdim == 2 and rng.random() < 0.5:
+                o.remove_knot(u=prm[0], v=prm[1], num_u=num[0], num_v=num[1])
+                ctx.tag('via:method')
+            else:
+                operations.remove_knot(o, prm, num)
+                ctx.tag('via:operations')
+        ctx.ok('removal')
+        post = G.snapshot(o)
+        ok = all(post['sizes'][d] == pre['sizes'][d] - num[d] for d in range(pdim))
+        ctx.check(ok, 'structure', 'one remove_knot call over directions %r x %r: sizes %r -> %r' % (dirs, num, pre['sizes'], post['sizes']),
+                  what='structure')
+        if not verify('insert in directions %r, then remove %r x %r in one call' % (dirs, prm, num)):
+            return
+        restored('multi-direction insert / single-call removal')
+        removed_any = True
+    elif mode == 'refine':
         # refine one direction, then remove copies of one NEW knot
         d = rng.randrange(pdim)
         pre = G.snapshot(o)
